@@ -323,6 +323,34 @@ partial def getV (j : Json) : D V := do
   | "user" => pure (.user vid (← getV (← fld j "inner")))
   | _ => throw s!"bad validator kind {k}"
 
+def getErrK (j : Json) : D ErrK := do
+  match ← str j "e" with
+  | "type" => pure (.type (← getTy (← fld j "ty")))
+  | "coercion" => pure (.coercion (← (← arr j "compat").toList.mapM getTy) (← getTy (← fld j "dest")))
+  | "preds" => pure (.preds (← natList j "pids"))
+  | "index" => pure (.index (← natList j "idx"))
+  | "keys" => pure (.keys (← (← arr j "ks").toList.mapM getVal))
+  | "map" =>
+    let shape ← (← arr j "shape").toList.mapM (fun p => do
+      let a ← p.getArr?
+      if a.size ≠ 2 then throw "bad shape"
+      pure (← a[0]!.getBool?, ← a[1]!.getBool?))
+    pure (.map (← (← arr j "ks").toList.mapM getVal) shape)
+  | "set" => pure .set
+  | "union" => pure .union
+  | "container" => pure .container
+  | "extraKeys" => pure (.extraKeys (← (← arr j "ks").toList.mapM getVal))
+  | "missingKey" => pure .missingKey
+  | "custom" => pure (.custom (← nat j "id"))
+  | e => throw s!"bad err kind {e}"
+
+partial def getInv (j : Json) : D Inv := do
+  let vid ← match (← fld j "vid").getNat? with
+    | .ok n => pure n
+    | .error _ => pure 0
+  pure (.mk (← getErrK (← fld j "err")) (← getVal (← fld j "value")) vid
+    (← (← arr j "children").toList.mapM getInv))
+
 /-- oracle tables: `[[codepoints, value|null], …]` per parser -/
 def getTable (j : Json) (k : String) : D (List (List Nat × Option PyVal)) :=
   match fldOpt j k with
